@@ -76,6 +76,15 @@ def run_all(data, opts, path):
     return html, md, raw
 
 
+SUPPORTED_HEADER = """From Mammoth Require Import SupportedSpec.
+Definition chk_supported (c : list (str * dpart) * bool * list (str * img_src) * api_opts * option (str * list str) * option (str * list str)) : bool :=
+  let '(parts, named, linked, a, _, _) := c in supported (mkSource (package_of parts) named linked).
+Definition chk_supp_sound (c : list (str * dpart) * bool * list (str * img_src) * api_opts * option (str * list str) * option (str * list str)) : bool :=
+  let '(parts, named, linked, a, oh, oraw) := c in
+  negb (supported (mkSource (package_of parts) named linked)) || match oh, oraw with Some _, Some _ => true | _, _ => false end.
+"""
+
+
 def run(ctx):
     ctx.build()
     rng = ctx.rng
@@ -137,9 +146,16 @@ def run(ctx):
                     dist["impl_raised_on_malformed"] += 1
             terms.append(A.case_term(parts, named, linked, opts, html, raw))
             metas.append(meta)
-    for i in ctx.coq_eval("c05", A.HEADER, terms, A.CASE_TYPE, "chk_api", shard=12)[:5]:
+    for i in ctx.coq_eval("c05", A.HEADER + SUPPORTED_HEADER, terms, A.CASE_TYPE, "chk_api", shard=12, more=("chk_supported", "chk_supp_sound"))[:5]:
         ctx.violation("correspondence", "model and implementation disagree (result, messages, or crash vs raise)",
                       dict(metas[i], obligation="correspondence Model/Api.v vs mammoth.convert_to_html / extract_raw_text"), False)
+    # the domain predicate of C05_supported_converts, computed in Coq on the package's XML alone: whenever it holds, the IMPLEMENTATION must have returned
+    for i in ctx.more_bad["chk_supp_sound"][:5]:
+        ctx.violation("oracle", "the package satisfies `supported` (Proofs/SupportedSpec.v: the property's domain on the XML alone) but the implementation raised",
+                      dict(metas[i], api="convert_to_html / extract_raw_text", obligation="Props/C05.v: C05_supported_converts evaluated on this package"), True)
+    not_supported = set(ctx.more_bad["chk_supported"])
+    dist["valid_packages_satisfying_supported"] = sum(1 for i, m_ in enumerate(metas) if m_["kind"] is None and i not in not_supported)
+    dist["malformed_packages_satisfying_supported"] = sum(1 for i, m_ in enumerate(metas) if m_["kind"] is not None and i not in not_supported)
     ctx.coverage["traces_validated_against_impl"] = len(terms)
     ctx.coverage["input_distribution"] = dist
     ctx.coverage["rule"] = ("packages from the supported grammar with optional constructs independently absent and tolerated references dangling "
